@@ -365,14 +365,16 @@ def run(ctx):
     from ..formula import imported
     from . import C06
 
-    ctx._own_rules = set(ctx.rule_min)
-    fx = TreeFx(ctx.prog)
-    imported(ctx, C06.rule_M1, fx)
-    try:
-        summary = C06.payload_summary(ctx)
-        imported(ctx, C06.rule_M2, fx, summary)
-    except AnalysisError as e:
-        ctx.note("imported premise C06.M2 not analysable on this tree: %s" % str(e)[:200])
+    from . import _premises
+
+    _premises.refresh(ctx)
+    # "the same posterior": the moves weigh candidates with log_p_one, the whole-tree update with the fused form —
+    # both must be the specified density (C03.T1-T3); candidates are built with the tree editor (TS) from copies
+    # that share nothing with the current state (C06.M4), and no candidate loses a data point (C07.L1)
+    _premises.density(ctx)
+    _premises.tree_editor(ctx)
+    _premises.deep_copies(ctx)
+    _premises.linear_use(ctx)
 
 
 _G = "phyclone/mcmc/gibbs_mh.py"
